@@ -521,11 +521,33 @@ pub fn run(ctx: &Ctx) -> i32 {
         }
     }
     acc.add("binary_sample_runs", sample);
+    // every way of ending WITHOUT translating (help, version, usage errors, operands that cannot be read), under
+    // ordinary and unusual program names (argv[0] not valid UTF-8, empty, a path), with stdout a pipe, a pipe
+    // nobody reads and a full device: the wait status is 0, 1 or 2 - or SIGPIPE where the reader has gone
+    let lines: [&[&str]; 12] = [&["-h"], &["--help"], &["-V"], &["--version"], &["--bogus"], &["-f", "nope"], &["-t", "json", "-t", "yaml"], &["-t"], &["missing.json"], &["-"], &[], &["-x", "-h"]];
+    for arg0 in ["xt", "x\u{fffd}t", "\u{fffd}", "", "/opt/bin/xt"] {
+        for line in lines {
+            for (si, stdout) in [StdoutKind::Pipe, StdoutKind::CloseAfter(0), StdoutKind::DevFull].into_iter().enumerate() {
+                for (bin, bname) in [(procmon::release_bin(), "release"), (procmon::debug_bin(), "debug")] {
+                    let argv: Vec<String> = line.iter().map(|s| s.to_string()).collect();
+                    let out = procmon::run_as(Run { bin: &bin, argv: argv.clone(), cwd: sc.path(), stdin: StdinKind::Bytes(b"{\"a\": 1}\n".to_vec()), stdout: stdout.clone(), wall_secs: 60, cpu_secs: 30 }, arg0);
+                    acc.evals += 1;
+                    acc.count("binary_non_translating_runs");
+                    match out.status {
+                        Status::Exit(0) | Status::Exit(1) | Status::Exit(2) => acc.count("binary_non_translating_exit_0_1_2"),
+                        Status::Signal(s) if s == libc::SIGPIPE && si == 1 => acc.count("binary_non_translating_sigpipe"),
+                        Status::Timeout | Status::SpawnError(_) => acc.inconclusive += 1,
+                        ref other => acc.violation(Violation { sig: format!("{bname} binary, no translation: {}", other.show()), case: json!({"binary": bname, "argv": argv, "arg0": arg0, "stdout": format!("{stdout:?}")}), observed: format!("{}; stderr [{}]", other.show(), preview(&out.stderr, 200)), expected: "exit 0, 1 or 2 (the only signal xt may die from is SIGPIPE)".into() }),
+                    }
+                }
+            }
+        }
+    }
     if thorough {
         fuzz_stage(ctx, "totality", 600, "C04", &mut acc);
     }
-    let rule = format!("{} cases in crash-isolated worker processes: 3/4 mixed corpus inputs (valid streams, mutants, splices, seeds, random bytes/tokens), 1/4 adversarial shapes (nesting to {} for JSON/MessagePack/TOML and {} for YAML, unclosed openers, declared lengths up to 2^32-1 on every str/bin/ext/array/map marker, alias bombs, lone anchors/aliases/tags, empty input, valid documents with a node the target must refuse, long scalars and wide collections, numeric edge literals, UTF-16/32 YAML with multi-byte characters on every alignment around 8/16/24/32 KiB of re-encoded text, random bytes); every case x 5 source selections x 4 targets x [slice, reader under a random schedule] (+ for translatable inputs two runs with a writer that fails at a random output offset) on the worker's 8 MiB main-thread stack with an 8 GiB address-space limit; plus a sample of adversarial inputs through the debug and release binaries; distinct non-trivial = distinct non-empty inputs", n, if thorough { 100000 } else { 5000 }, if thorough { 30000 } else { 1200 });
-    let mut f = Finish { ctx, level: "exploration", rule, assumptions: vec!["'never loops forever' is decided up to a budget: quick 60 s without progress in a batch, then 300 s alone; thorough 120 s / 900 s".into(), "a dead worker is attributed to the case it had announced".into()], extra: serde_json::Map::new(), exhaustive: false, min_distinct: 1000, must_reach: vec![("cases_completed".into(), (n as u64) * 9 / 10), ("binary_sample_exit_0_or_1".into(), 50), ("class_huge_declared_length".into(), 10), ("class_alias_bomb".into(), 10), ("class_reencoded_boundary".into(), 10)] };
+    let rule = format!("{} cases in crash-isolated worker processes: 3/4 mixed corpus inputs (valid streams, mutants, splices, seeds, random bytes/tokens), 1/4 adversarial shapes (nesting to {} for JSON/MessagePack/TOML and {} for YAML, unclosed openers, declared lengths up to 2^32-1 on every str/bin/ext/array/map marker, alias bombs, lone anchors/aliases/tags, empty input, valid documents with a node the target must refuse, long scalars and wide collections, numeric edge literals, UTF-16/32 YAML with multi-byte characters on every alignment around 8/16/24/32 KiB of re-encoded text, random bytes); every case x 5 source selections x 4 targets x [slice, reader under a random schedule] (+ for translatable inputs two runs with a writer that fails at a random output offset) on the worker's 8 MiB main-thread stack with an 8 GiB address-space limit; plus a sample of adversarial inputs through the debug and release binaries, and 12 command lines that end without translating (help, version, usage errors, unreadable operands) x 5 program names (argv[0] not valid UTF-8, empty, a path) x stdout pipe / unread pipe / full device through both binaries; distinct non-trivial = distinct non-empty inputs", n, if thorough { 100000 } else { 5000 }, if thorough { 30000 } else { 1200 });
+    let mut f = Finish { ctx, level: "exploration", rule, assumptions: vec!["'never loops forever' is decided up to a budget: quick 60 s without progress in a batch, then 300 s alone; thorough 120 s / 900 s".into(), "a dead worker is attributed to the case it had announced".into()], extra: serde_json::Map::new(), exhaustive: false, min_distinct: 1000, must_reach: vec![("cases_completed".into(), (n as u64) * 9 / 10), ("binary_sample_exit_0_or_1".into(), 50), ("binary_non_translating_exit_0_1_2".into(), 200), ("class_huge_declared_length".into(), 10), ("class_alias_bomb".into(), 10), ("class_reencoded_boundary".into(), 10)] };
     if !acc.violations.is_empty() {
         f.must_reach.clear();
     }
@@ -609,6 +631,31 @@ pub fn replay(v: &Value) -> i32 {
             Err(e) => {
                 println!("cannot run cargo fuzz: {e}");
                 2
+            }
+        };
+    }
+    if let (Some(arg0), Some(argv)) = (c["arg0"].as_str(), c["argv"].as_array()) {
+        let bin = if c["binary"].as_str() == Some("debug") { procmon::debug_bin() } else { procmon::release_bin() };
+        let stdout = match c["stdout"].as_str() {
+            Some("DevFull") => StdoutKind::DevFull,
+            Some(s) if s.starts_with("CloseAfter") => StdoutKind::CloseAfter(0),
+            _ => StdoutKind::Pipe,
+        };
+        let sc = Scratch::new();
+        let out = procmon::run_as(Run { bin: &bin, argv: argv.iter().filter_map(|a| a.as_str().map(String::from)).collect(), cwd: sc.path(), stdin: StdinKind::Bytes(b"{\"a\": 1}\n".to_vec()), stdout, wall_secs: 60, cpu_secs: 30 }, arg0);
+        println!("status {}; stderr [{}]", out.status.show(), preview(&out.stderr, 200));
+        return match out.status {
+            Status::Exit(0) | Status::Exit(1) | Status::Exit(2) => {
+                println!("not reproduced");
+                0
+            }
+            Status::Signal(s) if s == libc::SIGPIPE => {
+                println!("not reproduced");
+                0
+            }
+            _ => {
+                println!("VIOLATION property=C04 replay=<this file> (reproduced)");
+                1
             }
         };
     }
